@@ -783,6 +783,7 @@ def eq_pairs(rng, big):
                 ops.append([10, r, nid[0], c, nid[0] + 1, d])
         ops += [[61, 0, 1], [61, 1, 0], [61, 0, 0]]
         sops = []
+        nid[0] += 2     # (the last value of the maps has identity nid + 1: identities are unique within a case)
         for r, cont in ((2, a), (3, b)):
             for c, d in cont:
                 nid[0] += 1
